@@ -80,6 +80,13 @@ def run(ctx):
         ctx.violation(sig, desc, replay)
 
     with J.Recorder() as rec:
+        def kobj_of(x):
+            """the key source after a callable has been applied / a raw secret imported"""
+            if isinstance(x, (str, bytes)):
+                from joserfc.jwk import OctKey as _O
+                return _O.import_key(x)
+            return x(None) if callable(x) else x
+
         def choose_row(keyset, hdr_after):
             """the key random.choice picked = the one whose kid was stored in the header"""
             kid = hdr_after.get("kid")
@@ -95,7 +102,9 @@ def run(ctx):
                 for ser in ("compact", "flat", "gen1", "gen2", "gen3"):
                     for b64 in ((None, True, False) if ser in ("compact", "flat") else (None,)):
                         for placement in (("protected",) if ser == "compact" else ("protected", "split", "unprotected", "empty-protected")):
-                            for form in ("key", "set", "set-kid", "callable"):
+                            for form in ("key", "set", "set-kid", "callable", "set1", "callable-set", "callable-set1", "callable-set-kid", "raw"):
+                                if form == "raw" and not alg.startswith("HS"):
+                                    continue
                                 combos.append((alg, kn, ser, b64, placement, form))
         if quick:
             # every (alg, ser, b64) at least once, other dimensions sampled
@@ -161,18 +170,33 @@ def run(ctx):
             k = K[kn]
             pub = J.pubkey_of(k)
             o1, o2 = [K[n] for n in ("oct16", "p384", "ed448", "rsa") if K[n].key_type != k.key_type][:2]
+            # every KEY FORM on the signing side x the corresponding form on the verifying side:
+            # Key / KeySet (one key, several keys; kid in the header or not) / callable returning a Key /
+            # callable returning a KeySet / raw str or bytes
+            nokid_set = form in ("set", "set1", "callable-set", "callable-set1")
+            same = J.other_key_same_type(kn)
+            extra = [K[same]] if same and form in ("set", "callable-set") else []
             if form == "key":
                 sk, vk = k, pub
             elif form in ("set", "set-kid"):
                 # a second key of the SAME type in the set when one exists (random pick must be followed)
-                same = J.other_key_same_type(kn)
-                extra = [K[same]] if same and form == "set" else []
                 sk = KeySet([o1, k] + extra + [o2])
                 vk = KeySet([J.pubkey_of(o1), pub] + [J.pubkey_of(x) for x in extra])
+            elif form == "set1":
+                sk, vk = KeySet([k]), KeySet([pub])
+            elif form in ("callable-set", "callable-set-kid"):
+                _S = KeySet([o1, k] + extra + [o2])
+                _V = KeySet([J.pubkey_of(o1), pub] + [J.pubkey_of(x) for x in extra])
+                sk, vk = (lambda obj, _s=_S: _s), (lambda obj, _v=_V: _v)
+            elif form == "callable-set1":
+                _S, _V = KeySet([k]), KeySet([pub])
+                sk, vk = (lambda obj, _s=_S: _s), (lambda obj, _v=_V: _v)
+            elif form == "raw":
+                sk = vk = ("raw-secret-text-0123456789abcdef-%s" % alg) if ci % 2 else (b"raw-secret-octets-\x00\xff-0123456789abcdef" + alg.encode())
             else:
                 sk, vk = (lambda obj, _k=k: _k), (lambda obj, _p=pub: _p)
             base = {"alg": alg}
-            if form == "set-kid":
+            if form in ("set-kid", "callable-set-kid"):
                 base["kid"] = kn
             if rng.random() < 0.3:
                 base["typ"] = rng.choice(["JWT", "a/b é 中", "x"])
@@ -182,8 +206,8 @@ def run(ctx):
             pls = PAYLOADS if not quick else rng.sample(PAYLOADS, 2)
             for pl in pls:
                 is97 = b64 is not None
-                skobj = sk(None) if callable(sk) else sk
-                vkobj = vk(None) if callable(vk) else vk
+                skobj = kobj_of(sk)
+                vkobj = kobj_of(vk)
                 replay = {"alg": alg, "key": kn, "ser": ser, "b64": b64, "placement": placement, "form": form, "payload_hex": pl.hex(), "header": base}
                 ctx.note_case((alg, kn, ser, b64, placement, form, pl))
                 note("%s:b64=%s" % (ser, b64))
@@ -193,7 +217,7 @@ def run(ctx):
                     hdr_in = dict(hdr)
                     r = call(r97.serialize_compact if is97 else jws.serialize_compact, hdr, pl, sk, [alg])
                     rows, _ = rec.take()
-                    if form == "set":
+                    if nokid_set:
                         rows += choose_row(skobj, hdr)
                     add("%s %s %s %s %s %s %s" % (("JSerCompact97 %s" % J.c_table(rows) + " " + c_bool(lenient)) if is97 else ("JSerCompact %s" % J.c_table(rows)), "", J.c_dict(hdr_in), c_hex(pl),
                                                  J.c_keysrc(skobj), J.c_algs([alg]), J.c_res(r, lambda t: c_hex(t.encode()))),
@@ -213,7 +237,7 @@ def run(ctx):
                     hs, ps, ss = tok.split(b".")
                     signed_hdr = json.loads(b64u_dec(hs))
                     expect_hdr = dict(hdr_in)
-                    if form == "set":
+                    if nokid_set:
                         if "kid" not in signed_hdr:
                             bad({"kind": "kid-not-signed"}, "the kid of the key picked from the key set is not in the signed header", replay)
                         expect_hdr["kid"] = signed_hdr.get("kid")
@@ -279,7 +303,7 @@ def run(ctx):
                     else:
                         r = call(jws.serialize_json, members, pl, sk, [alg])
                     rows, _ = rec.take()
-                    if r[0] == "ok" and form == "set":
+                    if r[0] == "ok" and nokid_set:
                         for sg in (r[1]["signatures"] if ser != "flat" else [r[1]]):
                             rows += choose_row(skobj, sg.get("header") or {})
                     if ser == "flat":
@@ -294,7 +318,7 @@ def run(ctx):
                                                              J.c_algs([alg]), J.c_res(r, J.c_jval))
                     # with several same-type keys in the set each member may pick another key: one OChoose row cannot describe that
                     # (randomized signatures over one and the same signing input: the finite table cannot tell them apart)
-                    if not (form == "set" and n > 1 and J.other_key_same_type(kn)) and not (same_input and randomized):
+                    if not (nokid_set and n > 1 and extra) and not (same_input and randomized):
                         add(term, {"fn": "serialize_json", "what": "%s:%s:%s" % (ser, alg, b64), **replay})
                     if r[0] != "ok":
                         if fixed and is97 and placement == "split":
@@ -317,7 +341,7 @@ def run(ctx):
                             want = dict(members_in[i].get("protected") or {})
                             want.update(members_in[i].get("header") or {})
                             got = mem.headers()
-                            if form == "set":
+                            if nokid_set:
                                 if not got.get("kid"):
                                     good = False
                                 want["kid"] = got.get("kid")
